@@ -37,7 +37,7 @@ func c01Canary(t *rapid.T, a *Asker, p *Proxy, kind string, id uint16, what stri
 }
 
 func TestVfC01Listeners(t *testing.T) {
-	st := vfkit.Stats("TestVfC01Listeners", "hostile inputs per listener kind: UDP datagrams (hostile generator, 0-4096 octets), TCP/gnet/DoT frames with truthful/zero/short/long/64 KiB declared lengths, partial frame then FIN or RST, DoH GET (missing dns=, bad base64, padding, 90 KiB, wrong Accept, query strings of drawn segments incl. empty ones and repeated or valueless dns keys) and POST (empty, garbage, > 65535, wrong content type, other methods), DoQ streams (no FIN, garbage, oversized prefix, half prefix), hand-written HTTP/1.1 (POST without length, chunked, lying Content-Length, pipelined, HTTP/1.0, TLS or h2 preface on the plain port), octets below the DNS framing (garbage instead of / inside the TLS handshake, a hostile HTTP/2 header block, non-QUIC and half-QUIC datagrams on the DoQ port), each followed by a valid canary query; oracle: process alive without panic, whatever comes back is nothing / close / HTTP 4xx-5xx / a well-formed DNS message, a complete HTTP request is answered or hung up on within 12 s, and the canary is answered within 2 s; non-trivial = input that is not a valid query")
+	st := vfkit.Stats("TestVfC01Listeners", "hostile inputs per listener kind: UDP datagrams (hostile generator, 0-4096 octets), TCP/gnet/DoT frames with truthful/zero/short/long/64 KiB/2^k +-2 declared lengths, partial frame then FIN or RST, DoH GET (missing dns=, bad base64, padding, 90 KiB, wrong Accept, query strings of drawn segments incl. empty ones and repeated or valueless dns keys) and POST (empty, garbage, > 65535, wrong content type, other methods), DoQ streams (no FIN, garbage, oversized prefix, half prefix, prefixes of 2^k +-2 with nothing / a little / that much behind them), hand-written HTTP/1.1 (POST without length, chunked, lying Content-Length, pipelined, HTTP/1.0, TLS or h2 preface on the plain port), octets below the DNS framing (garbage instead of / inside the TLS handshake, a hostile HTTP/2 header block, non-QUIC and half-QUIC datagrams on the DoQ port), each followed by a valid canary query; oracle: process alive without panic, whatever comes back is nothing / close / HTTP 4xx-5xx / a well-formed DNS message, a complete HTTP request is answered or hung up on within 12 s, and the canary is answered within 2 s; non-trivial = input that is not a valid query")
 	defer vfkit.Flush()
 	block := NextIPBlock()
 	up, err := StartUpstream("udp", "up", block+"2", 0, nil, func(q *UpQuery) UpAction {
@@ -253,7 +253,7 @@ func TestVfC01Listeners(t *testing.T) {
 				t.Fatalf("dial %s: %v", kind, err)
 			}
 			decl := len(hostile)
-			mode := rapid.SampledFrom([]string{"truthful", "zero", "short", "long", "64k", "partial-fin", "partial-rst", "partial-stall", "two-frames"}).Draw(t, "frameMode")
+			mode := rapid.SampledFrom([]string{"truthful", "zero", "short", "long", "64k", "partial-fin", "partial-rst", "partial-stall", "two-frames", "edge-decl"}).Draw(t, "frameMode")
 			var stream []byte
 			switch mode {
 			case "zero":
@@ -266,6 +266,18 @@ func TestVfC01Listeners(t *testing.T) {
 				decl += rapid.IntRange(1, 300).Draw(t, "more")
 			case "64k":
 				decl = 65535
+			case "edge-decl":
+				// a declared length at the edge of a read buffer (a power of two, one or two more or less), whatever follows
+				decl = min(1<<rapid.IntRange(8, 16).Draw(t, "log2")+rapid.IntRange(-2, 2).Draw(t, "offBy"), 65535)
+				if rapid.Bool().Draw(t, "bodyOfThatLength") {
+					for len(hostile) < decl {
+						hostile = append(hostile, hostile...)
+						if len(hostile) == 0 {
+							hostile = []byte{0}
+						}
+					}
+					hostile = hostile[:decl]
+				}
 			}
 			stream = append(binary.BigEndian.AppendUint16(nil, uint16(min(decl, 65535))), hostile...)
 			if mode == "two-frames" {
@@ -419,7 +431,7 @@ func TestVfC01Listeners(t *testing.T) {
 			if err != nil {
 				t.Fatalf("doq dial: %v", err)
 			}
-			variant := rapid.SampledFrom([]string{"framed-fin", "framed-nofin", "raw-garbage", "oversized-prefix", "half-prefix", "empty-fin"}).Draw(t, "variant")
+			variant := rapid.SampledFrom([]string{"framed-fin", "framed-nofin", "raw-garbage", "oversized-prefix", "half-prefix", "empty-fin", "edge-prefix", "edge-prefix"}).Draw(t, "variant")
 			what = fmt.Sprintf("DoQ stream %s (class %s)", variant, class)
 			var payload []byte
 			fin := true
@@ -434,6 +446,22 @@ func TestVfC01Listeners(t *testing.T) {
 				payload = append([]byte{0xff, 0xff}, hostile...)
 			case "half-prefix":
 				payload = []byte{0x00}
+			case "edge-prefix":
+				// a prefix that announces a length at the edge of a read buffer; nothing, a few octets or exactly that much follows
+				decl := min(1<<rapid.IntRange(8, 16).Draw(t, "log2")+rapid.IntRange(-2, 2).Draw(t, "offBy"), 65535)
+				payload = binary.BigEndian.AppendUint16(nil, uint16(decl))
+				switch rapid.IntRange(0, 2).Draw(t, "behindThePrefix") {
+				case 1:
+					payload = append(payload, hostile[:min(len(hostile), 12)]...)
+				case 2:
+					body := append([]byte(nil), hostile...)
+					for len(body) < decl {
+						body = append(body, 0x2a)
+					}
+					payload = append(payload, body[:decl]...)
+				}
+				fin = rapid.Bool().Draw(t, "fin")
+				what = fmt.Sprintf("DoQ stream with prefix %d and %d octets behind it (fin=%v)", decl, len(payload)-2, fin)
 			default:
 				payload = nil
 			}
